@@ -89,6 +89,73 @@ def Buffer.tryApply (M : Mach) (p : Profile) (dr : Nat) (b : Buffer) (data : Lis
   .ok ({ state := s2, out := outBuf, hav := (have2 : Int), len := l, fresh := fresh },
        some (out0 ++ outW ++ outT))
 
+/-! ### the pieces of `Buffer::try_apply_keystream`
+
+  Named sub-definitions of `Buffer.tryApply` / `wideLoop` / `tailLoop` (the definitions above are unchanged) with the
+  decomposition lemmas `wideLoop_succ`, `tailLoop_cons`, `Buffer.tryApply_eq`: what the translator tie
+  (`CC.Src.src_chacha_buffer_try_apply_keystream*`) compares the regenerated code with. -/
+
+/-- the lazy fill at the top of `try_apply_keystream`:
+    `if self.have < 0 { self.state.refill(..); self.have += BLOCK; self.len = self.len.wrapping_sub(1) }` -/
+def Buffer.lazyFill (M : Mach) (dr : Nat) (b : Buffer) : Buffer :=
+  if b.hav < 0 then
+    { b with state := (refill M b.state dr).2, out := (refill M b.state dr).1, hav := b.hav + 64,
+             len := wsub64 b.len 1 }
+  else b
+
+/-- `blocks_needed` of a request of `n` bytes when `have_` bytes are buffered -/
+def blocksNeeded (have_ n : Nat) : Nat :=
+  (n - min have_ n) / 64 + (if (n - min have_ n) % 64 != 0 then 1 else 0)
+
+/-- the overflow check `o && !self.fresh` (after the lazy fill) -/
+def Buffer.refuses (b : Buffer) (n : Nat) : Bool :=
+  decide (b.len < blocksNeeded b.hav.toNat n) && !b.fresh
+
+/-- body of the wide loop, one 256-byte chunk: `refill4` + xor -/
+def wideStep (M : Mach) (dr : Nat) (s : Guts) (dd : List (BitVec 8)) : Guts × List (BitVec 8) :=
+  ((refill4 M s dr).2, xorBytes dd (refill4 M s dr).1)
+
+/-- body of the tail loop, one chunk of at most 64 bytes: `refill` + xor + `have = BLOCK - dd.len()`;
+    the new state, block buffer, `have`, and the chunk -/
+def tailStep (M : Mach) (dr : Nat) (s : Guts) (dd : List (BitVec 8)) :
+    (Guts × List (BitVec 8) × Nat) × List (BitVec 8) :=
+  (((refill M s dr).2, (refill M s dr).1, 64 - dd.length), xorBytes dd (refill M s dr).1)
+
+theorem wideLoop_succ (M : Mach) (dr n : Nat) (s : Guts) (data : List (BitVec 8)) :
+    wideLoop M dr (n + 1) s data =
+      ((wideStep M dr s (data.take 256)).2 ++ (wideLoop M dr n (wideStep M dr s (data.take 256)).1 (data.drop 256)).1,
+       (wideLoop M dr n (wideStep M dr s (data.take 256)).1 (data.drop 256)).2) := rfl
+
+theorem tailLoop_cons (M : Mach) (dr n : Nat) (s : Guts) (x : BitVec 8) (xs out : List (BitVec 8)) (hv : Nat) :
+    tailLoop M dr (n + 1) s (x :: xs) out hv =
+      (let r := tailStep M dr s ((x :: xs).take 64)
+       let t := tailLoop M dr n r.1.1 ((x :: xs).drop 64) r.1.2.1 r.1.2.2
+       (r.2 ++ t.1, t.2)) := rfl
+
+/-- drain of the buffered bytes, wide loop, tail loop and epilogue (`self.have = have as i8`) of a request that is
+    not refused: the buffer afterwards and the processed data -/
+def Buffer.applyBody (M : Mach) (dr : Nat) (b : Buffer) (data : List (BitVec 8)) : Buffer × List (BitVec 8) :=
+  let have_ := b.hav.toNat
+  let haveReady := min have_ data.length
+  let out0 := xorBytes (data.take haveReady) (b.out.drop (64 - have_))
+  let data1 := data.drop haveReady
+  let nwide := data1.length / 256
+  let w := wideLoop M dr nwide b.state data1
+  let data2 := data1.drop (256 * nwide)
+  let t := tailLoop M dr (data2.length / 64 + 1) w.2 data2 b.out (have_ - haveReady)
+  ({ state := t.2.1, out := t.2.2.1, hav := (t.2.2.2 : Int), len := wsub64 b.len (blocksNeeded have_ data.length),
+     fresh := b.fresh && blocksNeeded have_ data.length == 0 },
+   out0 ++ w.1 ++ t.1)
+
+/-- `Buffer.tryApply` = lazy fill; range check of `have`; overflow check (early `Err`); body -/
+theorem Buffer.tryApply_eq (M : Mach) (p : Profile) (dr : Nat) (b : Buffer) (data : List (BitVec 8)) :
+    Buffer.tryApply M p dr b data =
+      (if (b.lazyFill M dr).hav < 0 ∨ (b.lazyFill M dr).hav > 64 then .panic "have out of range"
+       else if (b.lazyFill M dr).refuses data.length then .ok (b.lazyFill M dr, none)
+       else .ok (((b.lazyFill M dr).applyBody M dr data).1, some ((b.lazyFill M dr).applyBody M dr data).2)) := by
+  unfold Buffer.tryApply Buffer.lazyFill Buffer.refuses Buffer.applyBody blocksNeeded
+  by_cases h : b.hav < 0 <;> simp only [h, if_true, if_false] <;> rfl
+
 /-- `seek64` -/
 def Buffer.seek64 (M : Mach) (b : Buffer) (ct : Nat) : Buffer :=
   let blockct := ct / 64
